@@ -648,6 +648,44 @@ func (o *mxOracle) checkMediaFMP4(si int, p *m3uMedia, bodies map[string]string,
 			o.failf("C02 stream %d: random-access unit %d is %d ns into media sequence %d (>= SegmentMinDuration %d) but no segment was started there", si, q.s.pay, toDurNs(q.dts, t.rate)-toDurNs(start, t.rate), p.mediaSeq+q.segIx, r.segMin)
 		}
 	}
+	// ---- C02: once the first complete segment encoded with changed parameters is listed and no further change is
+	// pending, the init served carries the new parameters (and always declares exactly the stream's one track)
+	if isVideoCodec(t.codec) && len(realSegs) > 0 && len(segStartDTS) == len(realSegs) {
+		if ib, ok := bodies[fmt.Sprintf("init%d", si)]; ok && strings.HasPrefix(ib, "init ") {
+			f := strings.Fields(ib)
+			if len(f) != 2 {
+				o.failf("C02 stream %d: init declares %d tracks, the stream has 1", si, len(f)-1)
+			} else if tr := strings.Split(f[1], ":"); len(tr) == 3 {
+				if tr[0] != "1" || tr[1] != "90000" {
+					o.failf("C02 stream %d: init declares track id %s / timescale %s, expected 1 / 90000", si, tr[0], tr[1])
+				}
+				// parameters in force at the first unit of the last listed segment, and at the end of what was written
+				parAt := func(ix int) int {
+					cur := 1
+					for i := 0; i <= ix && i < len(w); i++ {
+						if w[i].par != 0 {
+							cur = w[i].par
+						}
+					}
+					return cur
+				}
+				lastStart := -1
+				for _, q := range all {
+					if q.first && q.dts == segStartDTS[len(segStartDTS)-1] {
+						if ix, ok := byPay[q.s.pay]; ok {
+							lastStart = ix
+						}
+					}
+				}
+				if lastStart >= 0 && parAt(lastStart) == parAt(len(w)-1) {
+					// no change after the last listed segment began; was there one before (a forced cut)?
+					if got, _ := strconv.Atoi(tr[2]); got != parAt(lastStart) && o.everChanged(ti, lastStart) {
+						o.failf("C02 stream %d: the last listed segment is encoded with parameter set %d and no change is pending, but the init served carries parameter set %d", si, parAt(lastStart), got)
+					}
+				}
+			}
+		}
+	}
 	for i, g := range realSegs {
 		if g.pdt >= 0 && i < len(segStartDTS) {
 			for _, q := range all {
@@ -903,4 +941,14 @@ func (o *mxOracle) checkDueTS(p *m3uMedia, lead int, leadUnits [][]int) {
 			}
 		}
 	}
+}
+
+// everChanged: did a random-access unit at or before index ix activate a parameter change?
+func (o *mxOracle) everChanged(ti int, ix int) bool {
+	for i := 0; i <= ix && i < len(o.written[ti]); i++ {
+		if o.paramChangedAt(ti, i) {
+			return true
+		}
+	}
+	return false
 }
